@@ -142,3 +142,7 @@ impl Iterator for BinaryTermBuilder<'_> {
         Some(HpoTermInternal::try_from(bytes).expect("Invalid byte input"))
     }
 }
+
+#[cfg(kani)]
+#[path = "/verif/kani/binary.rs"]
+mod verif_kani;
